@@ -37,7 +37,12 @@ def gen_cases(rng, n):
         scale = float(np.exp(rng.uniform(np.log(1e-2), np.log(1e3))))
         loc = float(rng.uniform(-100, 100) * scale)
         sfx = str(rng.choice(["", "_a", "_3_F444W"]))
-        c = dict(kind=kind, loc=loc, scale=scale, suffix=sfx, low=None, high=None)
+        c = dict(kind=kind, loc=loc, scale=scale, suffix=sfx, low=None, high=None, name="flux", ptype="pointsource")
+        if k % 5 == 3:
+            # a parameter whose own name ends like the suffix (what PySersicMultiPrior produces for source 1 / 2 of a catalogue)
+            c["ptype"] = "doublesersic"
+            c["name"] = ["f_1", "r_eff_1", "n_1", "ellip_1", "r_eff_2", "n_2", "ellip_2"][(k // 5) % 7]
+            c["suffix"] = sfx = c["name"][-2:]
         if kind == "uniform":
             c["low"] = loc
             c["high"] = loc + scale * float(rng.uniform(0.2, 18))
@@ -91,8 +96,8 @@ def real_eval(payload):
     out = []
     for c in payload["cases"]:
         try:
-            prior = PR.PySersicSourcePrior("pointsource", suffix=c["suffix"])
-            name = "flux"
+            prior = PR.PySersicSourcePrior(c.get("ptype", "pointsource"), suffix=c["suffix"])
+            name = c.get("name", "flux")
             if c["kind"] == "gaussian":
                 prior.set_gaussian_prior(name, (np.int64(c["loc"]) if c.get("int_loc") and c["seed"] % 2 else c["loc"]), c["scale"])
             elif c["kind"] == "uniform":
@@ -250,7 +255,7 @@ def evaluate(ctx, cases, deep_every=4):
                 diffs.append(f"installed {fld} = {rv!r}, model {mv!r}")
         if a["reparam"] != "TransformReparam":
             diffs.append(f"reparam entry {a['reparam']}")
-        if a["keys"] != ["flux" + c["suffix"]]:
+        if a["keys"] != [c.get("name", "flux") + c["suffix"]]:
             diffs.append(f"helper defined keys {a['keys']}")
         for x, m, l64 in zip(c["xs"], ms, a["logp"]):
             if np.isfinite(l64) and np.isfinite(m["logp"]):
